@@ -453,6 +453,157 @@ def _fields(unit, it, o, c, ed, rules, named):
                 break
 
 
+def _ret_type_text(item):
+    """text of the return type of fn item ('' when it returns ())"""
+    toks = item.toks
+    k = item.a
+    while toks[k].text != "fn":
+        k += 1
+    k += 2
+    if toks[k].text == "<":
+        return None
+    pc = match_close(toks, k)
+    if toks[pc + 1].text != "->":
+        return ""
+    j = pc + 2
+    out = []
+    while j < item.body[0] and toks[j].text != "where":
+        out.append(toks[j].text)
+        j += 1
+    return " ".join(out)
+
+
+def _body_rules(unit, item, lo, hi, ed, rules, counts, outer_ret, depth):
+    """the body-level rewrites every extracted body gets (declared unit rewrites, opaque constructor calls, R10, fixed rules)"""
+    toks = item.toks
+    for (old, new) in unit.rewrites:
+        p = pat_of(old)
+        kk = 1
+        while True:
+            m = find_seq_wild(toks, lo, hi, p, kk)
+            if m is None:
+                break
+            s, e, binds = m
+            text = new
+            for (nm, (wa, wb)) in binds.items():
+                text = text.replace(nm, " ".join(t.text for t in toks[wa:wb]))
+            ed.replace(s, e, text)
+            _bump(rules, "declared unit rewrite `%s` => `%s`" % (old, new))
+            kk += 1
+    for (path, stub) in unit.opaque_calls:
+        pp = pat_of(path)
+        kk = 1
+        while True:
+            s0 = find_seq(toks, lo, hi, pp, kk)
+            if s0 is None:
+                break
+            kk += 1
+            e0 = s0 + len(pp)
+            if toks[e0].text != "(":
+                continue
+            close = match_close(toks, e0)
+            if any(a <= s0 < b for (a, b, _) in ed.repl):
+                continue
+            ed.replace(s0, close + 1, stub)
+            _bump(rules, "declared opaque constructor call `%s(..)` => `%s`" % (path, stub))
+
+
+def _inline_helpers(unit, item, lo, hi, ed, rules, counts, outer_ret, depth=0):
+    """R10: a call `self.NAME(args)` to a method of the same inherent impl that the unit does not list (a helper split off by a
+    refactoring) is replaced by the helper's body, `({ let vx_inlined: Ret = { let (params): (types) = (args); <body> }; vx_inlined })`, when that is semantics-preserving by
+    construction: no generics, receiver `self`/`&self`/`&mut self`, simple `name: Type` parameters, no `return`, no loop, and a `?`
+    inside the body only if the call itself is followed by `?` and helper and caller both return TransactionResult<_>.  The helper body
+    gets the same rewrites as any extracted body.  Anything else raises ExtractError (undecided), exactly as before this rule."""
+    toks = item.toks
+    parent = getattr(item, "parent", None)
+    if parent is None or parent.impl_trait is not None:
+        return
+    known = set()
+    for e in unit.items:
+        if e[0] == "fn" and e[2].impl == parent.impl_target:
+            known.add(e[2].name)
+    members = {}
+    for c in parent.children:
+        if c.kind == "fn":
+            members[c.name] = c
+    i = lo
+    while i < hi - 3:
+        if (toks[i].text == "self" and toks[i + 1].text == "." and toks[i + 2].kind == "ident" and toks[i + 3].text == "("
+                and toks[i - 1].text not in (".", "::") and toks[i + 2].text in members and toks[i + 2].text not in known
+                and not any(a <= i < b for (a, b, _) in ed.repl)):
+            name = toks[i + 2].text
+            close = match_close(toks, i + 3)
+            text = _inline_text(unit, item, members[name], i + 3, close, rules, counts, outer_ret, depth)
+            ed.replace(i, close + 1, text)
+            _bump(rules, "R10 unlisted helper inlined at its call: %s::%s" % (parent.impl_target, name))
+            i = close + 1
+            continue
+        i += 1
+
+
+def _inline_text(unit, caller, helper, popen, pclose, rules, counts, outer_ret, depth):
+    qual = "%s (helper not listed in the unit)" % helper.name
+    if depth > 3:
+        raise ExtractError("%s: helper nesting too deep" % qual)
+    if helper.body is None or "async" in [t.text for t in helper.toks[helper.a:helper.body[0]]]:
+        raise ExtractError("%s: not an ordinary method" % qual)
+    ht = helper.toks
+    k = helper.a
+    while ht[k].text != "fn":
+        k += 1
+    k += 2
+    if ht[k].text != "(":
+        raise ExtractError("%s: generic helper cannot be inlined" % qual)
+    pc = match_close(ht, k)
+    params = _split_top(ht, k + 1, pc)
+    if not params:
+        raise ExtractError("%s: no receiver" % qual)
+    recv = " ".join(t.text for t in ht[params[0][0]:params[0][1]])
+    if recv not in ("self", "& self", "& mut self", "mut self"):
+        raise ExtractError("%s: receiver `%s` cannot be inlined" % (qual, recv))
+    names, types = [], []
+    for (a, b) in params[1:]:
+        j = a
+        mut = ""
+        if ht[j].text == "mut":
+            mut = "mut "
+            j += 1
+        if ht[j].kind != "ident" or ht[j + 1].text != ":":
+            raise ExtractError("%s: parameter pattern cannot be inlined" % qual)
+        names.append(mut + ht[j].text)
+        types.append(helper.src[ht[j + 2].start:ht[b - 1].end])
+    ct = caller.toks
+    args = _split_top(ct, popen + 1, pclose)
+    if len(args) != len(names):
+        raise ExtractError("%s: argument count mismatch" % qual)
+    for (a, b) in args:
+        if any(t.text == "!" for t in ct[a:b]):
+            raise ExtractError("%s: macro in an argument" % qual)
+    hb0, hb1 = helper.body
+    body_toks = [t.text for t in ht[hb0 + 1:hb1]]
+    for bad in ("return", "while", "for", "loop", "break", "continue", "await"):
+        if bad in body_toks:
+            raise ExtractError("%s: body contains `%s`" % (qual, bad))
+    hret = _ret_type_text(helper)
+    if "?" in body_toks:
+        if ct[pclose + 1].text != "?" or not (hret or "").startswith("TransactionResult") or not (outer_ret or "").startswith("TransactionResult"):
+            raise ExtractError("%s: `?` inside the helper cannot be carried to the call site" % qual)
+    sub = Edits()
+    _body_rules(unit, helper, hb0 + 1, hb1, sub, rules, counts, outer_ret, depth + 1)
+    _inline_helpers(unit, helper, hb0 + 1, hb1, sub, rules, counts, outer_ret, depth + 1)
+    apply_fixed_rules(helper, hb0 + 1, hb1, sub, counts)
+    body = render(helper, hb0 + 1, hb1, sub).replace("\n", " ")
+    argtext = [caller.src[ct[a].start:ct[b - 1].end].replace("\n", " ") for (a, b) in args]
+    if not names:
+        bind = ""
+    elif len(names) == 1:
+        bind = "let %s: %s = %s; " % (names[0], types[0], argtext[0])
+    else:
+        bind = "let (%s): (%s) = (%s); " % (", ".join(names), ", ".join(types), ", ".join(argtext))
+    # the helper's declared return type is ascribed to the block, as the call had it
+    return "({ let vx_inlined: %s = { %s%s }; vx_inlined })" % (hret if hret else "()", bind, body)
+
+
 def _emit_fn(unit, fs, it, out, rules):
     toks, src = it.toks, it.src
     ed = Edits()
@@ -510,36 +661,8 @@ def _emit_fn(unit, fs, it, out, rules):
         _bump(rules, "R7 external (body not verified): %s" % fs.qual)
     else:
         ed.ins_before(bo, spec_text)
-        for (old, new) in unit.rewrites:
-            p = pat_of(old)
-            kk = 1
-            while True:
-                m = find_seq_wild(toks, bo, bc + 1, p, kk)
-                if m is None:
-                    break
-                s, e, binds = m
-                text = new
-                for (nm, (wa, wb)) in binds.items():
-                    text = text.replace(nm, " ".join(t.text for t in toks[wa:wb]))
-                ed.replace(s, e, text)
-                _bump(rules, "declared unit rewrite `%s` => `%s`" % (old, new))
-                kk += 1
-        for (path, stub) in unit.opaque_calls:
-            pp = pat_of(path)
-            kk = 1
-            while True:
-                s0 = find_seq(toks, bo, bc + 1, pp, kk)
-                if s0 is None:
-                    break
-                kk += 1
-                e0 = s0 + len(pp)
-                if toks[e0].text != "(":
-                    continue
-                close = match_close(toks, e0)
-                if any(a <= s0 < b for (a, b, _) in ed.repl):
-                    continue
-                ed.replace(s0, close + 1, stub)
-                _bump(rules, "declared opaque constructor call `%s(..)` => `%s`" % (path, stub))
+        outer_ret = _ret_type_text(it)
+        _body_rules(unit, it, bo, bc + 1, ed, rules, counts, outer_ret, 0)
         for (old, k_, new) in fs.replaces:
             p = pat_of(old)
             s = find_seq(toks, bo, bc + 1, p, k_)
@@ -547,6 +670,8 @@ def _emit_fn(unit, fs, it, out, rules):
                 raise ExtractError("%s: replace anchor `%s` (#%d) not found" % (fs.qual, old, k_))
             ed.replace(s, s + len(p), new)
             _bump(rules, "declared rewrite in %s: `%s` => `%s`" % (fs.qual, old, new))
+        # ---- R10 (unlisted helper methods are inlined at their calls)
+        _inline_helpers(unit, it, bo + 1, bc, ed, rules, counts, outer_ret, 0)
         # ---- fixed rules (declared rewrites take precedence: the rules skip what those already replaced)
         apply_fixed_rules(it, bo, bc + 1, ed, counts)
         # ---- loops
